@@ -32,5 +32,6 @@ def check(ctx: Ctx):
     ctx.expect("PASS", 1)
     ctx.expect("ADDZERO", 1)
     ctx.expect("SMOOTHIN", 1)
+    ctx.expect("PERMINV", 1)
     ctx.trust("numpy.fft.fftfreq(n, d) has unit 1/unit(d)", "fftn(norm='ortho') scales the amplitude by count^(1/2)", "SmoothData1D(x, y, sigma): sigma in units of x")
     ctx.assume("FFT theorems (Parseval's value, translation/reflection/permutation invariance) and non-negativity of |f|² are library facts, not decided")
